@@ -469,6 +469,19 @@ func c12Check(cs c12Case) core.Outcome {
 				return fail("order-differs-from-fresh-parse", "file %d: restored positions %s=%d < %s=%d but a fresh parse of the printed text orders them %d > %d\nprinted:\n%s", fi, pairs[i-1].path, pairs[i-1].r, pairs[i].path, pairs[i].r, pairs[i-1].f, pairs[i].f, b1.String())
 			}
 		}
+		// ties: two position fields coincide in the restored ast exactly when they coincide in the fresh parse
+		sort.SliceStable(pairs, func(i, j int) bool {
+			if pairs[i].r != pairs[j].r {
+				return pairs[i].r < pairs[j].r
+			}
+			return pairs[i].f < pairs[j].f
+		})
+		for i := 1; i < len(pairs); i++ {
+			if (pairs[i].r == pairs[i-1].r) != (pairs[i].f == pairs[i-1].f) && !handDecorated {
+				return fail("positions-coincide-differently:"+fieldKey(pairs[i-1].path)+"/"+fieldKey(pairs[i].path), "file %d: %s and %s: restored positions %d and %d, fresh parse %d and %d (two positions must coincide in the restored ast exactly when they coincide in a fresh parse)\nprinted:\n%s",
+					fi, pairs[i-1].path, pairs[i].path, pairs[i-1].r, pairs[i].r, pairs[i-1].f, pairs[i].f, b1.String())
+			}
+		}
 		sort.SliceStable(pairs, func(i, j int) bool { return pairs[i].f < pairs[j].f })
 		for i := 1; i < len(pairs); i++ {
 			if pairs[i].r < pairs[i-1].r && pairs[i].f > pairs[i-1].f {
